@@ -236,10 +236,10 @@ func scriptedC10() map[string]c10seq {
 	q := func(uid, l int) c10op { return c10op{Op: "queue", Kind: "unique", UID: uid, Len: l} }
 	g := func(nn int) c10op { return c10op{Op: "get", Overhead: 2, Limit: 1400, NumNodes: nn} }
 	return map[string]c10seq{
-		"prune-on-fresh":   {Mult: 3, Ops: []c10op{{Op: "prune", N: 0}, q(1, 3), g(10), {Op: "numqueued"}}},
+		"prune-on-fresh":    {Mult: 3, Ops: []c10op{{Op: "prune", N: 0}, q(1, 3), g(10), {Op: "numqueued"}}},
 		"prune-after-reset": {Mult: 3, Ops: []c10op{q(1, 3), {Op: "reset"}, {Op: "prune", N: 1}, q(2, 3), g(10)}},
-		"reset-on-fresh":   {Mult: 3, Ops: []c10op{{Op: "reset"}, {Op: "numqueued"}, g(10)}},
-		"get-on-fresh":     {Mult: 3, Ops: []c10op{g(10), {Op: "numqueued"}}},
+		"reset-on-fresh":    {Mult: 3, Ops: []c10op{{Op: "reset"}, {Op: "numqueued"}, g(10)}},
+		"get-on-fresh":      {Mult: 3, Ops: []c10op{g(10), {Op: "numqueued"}}},
 		"drain-then-queue-equal-length": {Mult: 4, Ops: []c10op{
 			q(1, 3), q(2, 3), g(100), q(3, 3), g(100), {Op: "numqueued"}, g(100), g(100), g(100), g(100), g(100), g(100), g(100), {Op: "numqueued"}}},
 		"drain-one-then-queue-equal-length": {Mult: 4, Ops: []c10op{
